@@ -237,8 +237,20 @@ def h_dh(group):
     bits = RFC3526_GROUP[group] if modp else RFC5903[group][1]
     klen = bits // 8 if modp else RFC5903[group][2]
     lib = _LibModel(eng, 8 * klen)
-    saved = (c.dh, c.ec, getattr(c, 'int', int))
+    saved = (getattr(c, 'dh', None), c.ec, getattr(c, 'int', int))
     c.dh, c.int = lib, _Int
+    # an implementation over plain Python integers instead of the library: modular exponentiation is the uninterpreted part
+    pows = []
+
+    def model_pow(base, exp, mod=None):
+        if mod is None or not modp or mod != rfc3526_prime(bits):
+            return pow(base, exp, mod)
+        r = eng.sym_int('g^x mod p' if not pows else f'peer^x mod p #{len(pows)}', 0, None, width=8 * klen + 8)
+        eng.assume(r < mod)
+        eng.assume(r >= 0)
+        pows.append((base, r))
+        return r
+    c.pow = model_pow
     real_ec = c.ec
     c.ec = type('EC', (), {'generate_private_key': staticmethod(lib.generate_private_key), 'EllipticCurvePublicNumbers': staticmethod(lib.EllipticCurvePublicNumbers),
                            'ECDH': staticmethod(lib.ECDH)})
@@ -246,6 +258,27 @@ def h_dh(group):
         d = c.DiffieHellman.from_group(gid)
         P = eng.prove
         pub = core.SymBytes.lift(d.public_key)
+        if modp and 'p' not in lib.rec and pows:
+            # integer implementation: public value and shared secret are fixed-width big-endian encodings of the two modular powers
+            if pows[0][0] != 2:
+                return {'class': ['dh'], 'violation': f'group {group}: generator {pows[0][0]}'}
+            if len(pub) != klen or d.key_len != klen:
+                return {'class': ['dh'], 'violation': f'group {group}: public value has {len(pub)} bytes, the group needs {klen}'}
+            P(pub.to_int() == pows[0][1], f'group {group}: the public value is not the big-endian encoding of g^x mod p')
+            peer = eng.sym_bytes('peer_public', klen)
+            try:
+                d.compute_secret(peer)
+            except ValueError:
+                return ['dh', group, 'peer value refused']
+            if len(pows) != 2:
+                return {'class': ['dh'], 'violation': f'group {group}: {len(pows) - 1} modular exponentiations for one shared secret'}
+            P(pows[1][0] == core.SymBytes.lift(peer).to_int(), f'group {group}: the base of the exponentiation is not the big-endian value of the peer KE data')
+            ss = core.SymBytes.lift(d.shared_secret)
+            if len(ss) != klen:
+                return {'class': ['dh'], 'violation': f'group {group}: the shared secret g^ir has {len(ss)} octets; RFC 7296 2.14 uses it zero-padded to the length of '
+                                                      f'the modulus ({klen} octets), leading zero octets included'}
+            P(ss.to_int() == pows[1][1], f'group {group}: the shared secret is not the big-endian encoding of peer^x mod p')
+            return ['dh', group, 'integer implementation']
         if modp:
             if lib.rec.get('g') != 2 or lib.rec.get('p') != rfc3526_prime(bits):
                 return {'class': ['dh'], 'violation': f'group {group}: generator/prime handed to the library are not (2, RFC 3526 prime)'}
@@ -274,6 +307,7 @@ def h_dh(group):
         return ['dh', group]
     finally:
         c.dh, c.ec, c.int = saved[0], real_ec, saved[2]
+        del c.pow
 
 
 def build_instances(tier):
@@ -353,6 +387,35 @@ def replay_file(path):
         while len(out) < n:
             t = P(k, t + s + bytes([i])); out += t; i += 1
         return out[:n]
+    if name.startswith('DH group'):
+        # native differential on the real library: widths, agreement of the two sides, and a search for a shared secret with a leading zero
+        # octet (1 in 256 peer values) whose encoding must keep the length of the modulus
+        g = int(name.split()[2])
+        gid = m.Transform.DhId(g)
+        klen = (RFC3526_GROUP[g] // 8) if g in RFC3526_GROUP else RFC5903[g][2]
+        bad = []
+        d1, d2 = c.DiffieHellman.from_group(gid), c.DiffieHellman.from_group(gid)
+        want_pub = klen if g in RFC3526_GROUP else 2 * klen
+        if len(d1.public_key) != want_pub:
+            bad.append(f'public value has {len(d1.public_key)} octets, expected {want_pub}')
+        d1.compute_secret(d2.public_key); d2.compute_secret(d1.public_key)
+        if d1.shared_secret != d2.shared_secret:
+            bad.append('the two sides derive different secrets')
+        if g in RFC3526_GROUP:
+            for i in range(2, 2 + (4000 if g == 14 else 1500)):
+                try:
+                    d1.compute_secret(i.to_bytes(klen, 'big'))
+                except Exception:      # noqa - small subgroup / range checks of the implementation
+                    continue
+                if len(d1.shared_secret) != klen:
+                    bad.append(f'peer value {i}: the shared secret has {len(d1.shared_secret)} octets, the modulus {klen}')
+                    break
+        elif len(d1.shared_secret) != klen:
+            bad.append(f'shared secret has {len(d1.shared_secret)} octets, expected {klen}')
+        print('native:', bad or 'no deviation')
+        return 1 if bad else 0
+    if name.startswith('MODP primes'):
+        return 1
     if name.startswith('prfplus'):
         got = c.Prf(T(2, int(kv['prf']))).prfplus(hx('key'), hx('seed'), int(kv['size']))
         return 0 if got == PP(hx('key'), hx('seed'), int(kv['size'])) else 1
